@@ -10,10 +10,11 @@ import VaxisModel.Spec.KeyEnc
 import VaxisModel.Lemmas.KeyMatch
 import VaxisModel.Lemmas.KeyDecode
 import VaxisModel.Lemmas.KeySelf
+import VaxisModel.Lemmas.KeyCross
 
 namespace VaxisModel.Props.C09
 open VaxisModel.Model.Key VaxisModel.Spec.KeyEnc VaxisModel.Gen.Keys
-open VaxisModel.Lemmas.KeyMatch VaxisModel.Lemmas.KeyDecode VaxisModel.Lemmas.KeySelf
+open VaxisModel.Lemmas.KeyMatch VaxisModel.Lemmas.KeyDecode VaxisModel.Lemmas.KeySelf VaxisModel.Lemmas.KeyCross
 
 /-! ## Tables regenerated from key.go agree with the protocol documents -/
 
@@ -193,6 +194,47 @@ theorem decode_exact_modify_other_keys (u : Uni) (m : Nat) (code : Int) (hc : in
   have : lookup2 (27, 126) specialsKeys = none := by decide
   have h27 : toRune 27 = 27 := by decide
   simp [this, h27]
+
+/-! ## The same chord under the legacy and the kitty encoding -/
+
+/-- Table part of `cross_protocol`: for every chord of `xpChords` the xterm legacy protocol expresses
+    (376 of 760), every kitty (number, final) denoting the key and every considered field
+    combination, the two decoded events are equal up to the text of an unmodified character key. -/
+theorem xp_table : (xpChords.all fun ch => xpOK asciiUni ch) = true := by decide +kernel
+
+theorem xp_domain_size :
+    (xpChords.filter fun ch => (xtermLegacy ch.1 ch.2.1 ch.2.2 false).isSome).length = 376 := by decide +kernel
+
+/-- **cross_protocol.** A chord that both the xterm legacy protocol and the kitty protocol express
+    (every special key and every printable ASCII key × Shift/Alt/Ctrl sets with a single unambiguous
+    legacy report; kitty reports carrying the modifiers and — for Shift on a character key — the
+    shifted code, with or without event type and text): the events decoded from the two reports have
+    the same `String()` and match exactly the same bindings, for **all** binding runes and masks. -/
+theorem cross_protocol (ch : Int × Nat × Int) (hch : ch ∈ xpChords) (ckm : Bool) (sL : Seq)
+    (hL : xtermLegacy ch.1 ch.2.1 ch.2.2 ckm = some sL)
+    (nf : Int × Int) (hnf : nf ∈ kittyCodes ch.1) (ft : Form × Bool) (hft : ft ∈ xpForms ch.1 ch.2.1) :
+    let c : Chord := { key := ch.1, mods := ch.2.1, shifted := ch.2.2,
+                       text := if ft.2 then [if ch.2.1 &&& 1 ≠ 0 then ch.2.2 else ch.1] else [] }
+    let kL := decodeKey asciiUni sL
+    let kK := decodeKey asciiUni (kittySeq nf.1 nf.2 c ft.1)
+    keyString asciiUni kL = keyString asciiUni kK ∧
+    ∀ b m, «matches» asciiUni kL b m = «matches» asciiUni kK b m := by
+  have h := List.all_eq_true.mp xp_table ch hch
+  obtain ⟨key, mods, shifted⟩ := ch
+  simp only [xpOK, List.all_cons, List.all_nil, Bool.and_true, Bool.and_eq_true] at h
+  have h' : (match xtermLegacy key mods shifted ckm with
+      | none => true
+      | some sL => (kittyCodes key).all fun nf => (xpForms key mods).all fun ft =>
+          sameForMatching (decodeKey asciiUni sL) (decodeKey asciiUni (kittySeq nf.1 nf.2
+            { key := key, mods := mods, shifted := shifted,
+              text := if ft.2 then [if mods &&& 1 ≠ 0 then shifted else key] else [] } ft.1))) = true := by
+    cases ckm
+    · exact h.1
+    · exact h.2
+  simp only at hL
+  rw [hL] at h'
+  have h2 := List.all_eq_true.mp (List.all_eq_true.mp h' nf hnf) ft hft
+  exact sameForMatching_sound _ _ h2
 
 /-! ## A chord matches its own `String()`
 
